@@ -262,6 +262,7 @@ class C09(Check):
         src_var = f"{opA['name']}/{models.LIB[opA['lib']]['out']}"
         tgt_var = f"{opB['name']}/{models.LIB[opB['lib']]['in']}"
         share = rng.random() < 0.6
+        f32 = rng.random() < 0.3          # delay matrices handed over in single precision (np.float32 entries)
         D0 = None
         spec['matrix'] = []
         for gi, tg in enumerate((groups[1], groups[2])):
@@ -272,7 +273,7 @@ class C09(Check):
                 D = D0
             D0 = D0 or D
             spec['matrix'].append({'sources': groups[0], 'targets': tg, 'src_var': src_var, 'tgt_var': tgt_var, 'W': W, 'D': D,
-                                   'share': share})
+                                   'share': share, 'f32': f32})
             for j, t_ in enumerate(tg):
                 for i, s_ in enumerate(groups[0]):
                     if abs(W[j][i]) > 1e-6:
@@ -360,11 +361,13 @@ class C09(Check):
                     for g in spec['matrix']:
                         if g['share']:
                             if shared_attr is None:
-                                shared_attr = {'delay': np.array(g['D'])}
+                                shared_attr = {'delay': np.array(g['D'], dtype=np.float32 if g.get('f32') else float)}
                             attr = shared_attr          # the user hands the same dict to both calls
                             bump('matrix_attr_dict_reused')
                         else:
-                            attr = {'delay': np.array(g['D'])}
+                            attr = {'delay': np.array(g['D'], dtype=np.float32 if g.get('f32') else float)}
+                        if g.get('f32'):
+                            bump('matrix_float32_delays')
                         c.add_edges_from_matrix(g['src_var'], g['tgt_var'], list(g['sources']), list(g['targets']),
                                                 weight=np.array(g['W']), edge_attr=attr)
                 else:
